@@ -29,11 +29,13 @@ type Node struct {
 	Kind    Kind
 	B       bool
 	Text    string // number text, or decoded string value
+	Wild    bool   // expected side only: any string matches (used where the wording of an error text is not pinned)
 	Elems   []*Node
 	Members []Member
 }
 
 func S(s string) *Node   { return &Node{Kind: Str, Text: s} }
+func AnyS() *Node        { return &Node{Kind: Str, Text: "<any string>", Wild: true} }
 func N(t string) *Node   { return &Node{Kind: Num, Text: t} }
 func B(b bool) *Node     { return &Node{Kind: Bool, B: b} }
 func NullNode() *Node    { return &Node{Kind: Null} }
@@ -453,7 +455,7 @@ func diff(path string, a, b *Node, cmpNum func(x, y string) bool) string {
 			return fmt.Sprintf("%s: number got %s want %s", path, a.Text, b.Text)
 		}
 	case Str:
-		if a.Text != b.Text {
+		if !b.Wild && a.Text != b.Text {
 			return fmt.Sprintf("%s: string got %q want %q", path, a.Text, b.Text)
 		}
 	case Arr:
